@@ -34,13 +34,20 @@ var initAllowList = map[string]bool{
 	"internal/bytealg": false, "internal/oserror": true, "internal/cpu": true, "internal/byteorder": true, "database/sql": false, "time": false, "context": false,
 }
 
-var initDenyAtlas = map[string]bool{
-	"ariga.io/atlas/schemahcl": true,
+// Atlas packages whose initialisers are not run (HCL machinery, generated ORM).
+var initDenyAtlas = []string{
+	"ariga.io/atlas/schemahcl",
+	"ariga.io/atlas/cmd/atlas/internal/migrate/ent",
 }
 
 func initAllowed(path string) bool {
 	if strings.HasPrefix(path, "ariga.io/atlas") {
-		return !initDenyAtlas[path]
+		for _, d := range initDenyAtlas {
+			if path == d || strings.HasPrefix(path, d+"/") {
+				return false
+			}
+		}
+		return true
 	}
 	return initAllowList[path]
 }
